@@ -93,7 +93,9 @@ func (m *MessageBuffer) Send(msg []byte) error {
 		return ErrClosed
 	}
 
-	l := len(msg)
+	// Account for the size of the message inside a batch (tag and length
+	// prefix included), so that an emitted batch never exceeds maxSize.
+	l := batchedMessageSize(msg)
 	if l > m.maxSize {
 		return ErrMessageTooLarge
 	}
